@@ -761,7 +761,7 @@ SUBCHECKS = {"grow": x_grow, "tree": x_tree, "run": x_run, "subprocess": x_subpr
 
 # (U+2028 and form feed are line breaks to str.splitlines() but not to a bytes-wise readlines(); they are
 # neither leading nor trailing here)
-ID_POOL = ["mod.T.test_\u2028param", "mod.T.test\x0cff", "a", "b", "c", "d", "mod.T.test_x", "mod.T.test_x (slow)", "mod.T.test y[big endian]",
+ID_POOL = ["mod.TestModuleImportFailure.test_reports", "mod.T.test_\u2028param", "mod.T.test\x0cff", "a", "b", "c", "d", "mod.T.test_x", "mod.T.test_x (slow)", "mod.T.test y[big endian]",
            "é.test", "z z", "B", "a.b", "a b",
            # ids competing on characters that sort before "." (a dash in a module name, a scenario in brackets)
            "pkg.test.T.x", "pkg.test-io.T.x", "mod.T.test_x(v1.2)", "mod.T.test_x(v1-rc)", "mod.T.test_x(v1)", "a-b", "a!b"]
